@@ -295,6 +295,8 @@ class PosePath3D(object):
         reduce the elements to the ones specified in ids
         :param ids: list of integer indices
         """
+        # A tuple would be interpreted as a multi-dimensional index by numpy.
+        ids = list(ids)
         if hasattr(self, "_positions_xyz"):
             self._positions_xyz = self._positions_xyz[ids]
         if hasattr(self, "_orientations_quat_wxyz"):
@@ -446,6 +448,7 @@ class PoseTrajectory3D(PosePath3D, object):
 
     def reduce_to_ids(
             self, ids: typing.Union[typing.Sequence[int], np.ndarray]) -> None:
+        ids = list(ids)
         super(PoseTrajectory3D, self).reduce_to_ids(ids)
         self.timestamps = self.timestamps[ids]
 
